@@ -1,0 +1,17 @@
+package utils
+
+import "github.com/nyaruka/gocommon/stringsx"
+
+// Truncate truncates the given string to at most limit characters. A negative limit is treated as zero.
+func Truncate(s string, limit int) string {
+	return stringsx.Truncate(s, max(limit, 0))
+}
+
+// TruncateEllipsis truncates the given string to at most limit characters, ending it with an ellipsis where it
+// is cut. A limit too small to hold the ellipsis just cuts, and a negative limit is treated as zero.
+func TruncateEllipsis(s string, limit int) string {
+	if limit < len("...") {
+		return Truncate(s, limit)
+	}
+	return stringsx.TruncateEllipsis(s, limit)
+}
